@@ -224,6 +224,8 @@ def check_layout(case, stats):
             chosen = {l for l in chosen if l < seps[-1]}
         if chosen:
             pre = sel.choice([" ", "  ", "\t", "    "])
+            if case.get("indent_by"):
+                pre = (pre[0] if pre[0] == "\t" and case["indent_by"] % 2 else " ") * case["indent_by"]
             t4 = join([(pre + b if i + 1 in chosen else b) for i, b in enumerate(body)])
             touched = max(touched, len(chosen))
             o4 = outcome(t4, dflt)
@@ -348,6 +350,12 @@ def unit_corpus(a):
     from .c17 import large_sources
     cases.append({"sub": "layout", "text": large_sources()[0], "label": "large-non-ascii-file", "choices": [1] * 24})
     cases.append({"sub": "layout", "text": "\ufeffFeature: bom\n Scenario: s\n  Given x\n", "label": "bom", "choices": [2] * 24})
+    # indentation far beyond anything a bounded scan of the leading white space would allow for
+    rich = ("@t @u\nFeature: f\n desc\n Background:\n  Given b\n @s\n Scenario Outline: o <a>\n  Given <a> x\n   | a | b |\n  And d\n   \"\"\"m\n   c\n   \"\"\"\n  @e   @f\n  Examples: e\n   | a |\n   | 1 |\n"
+            " Rule: r\n  Scenario: s\n   * y\n   ```\n   z\n   ```\n")
+    for k in [255, 256, 257, 4096, 65535, 65536, 65537, 70001] + ([] if a.get("quick", True) else [(1 << 20) + 1]):
+        for c in (0, 1, 2, 3, 5, 7):
+            cases.append({"sub": "layout", "text": rich, "label": "deep-indentation-%d" % k, "choices": [c, c + 1, c * 3, 255 - c] * 6, "indent_by": k, "budget_s": 120})
     sweep(stats, cases[a.get("part", 0)::a.get("parts", 1)], check_layout)
     return stats
 
